@@ -107,6 +107,22 @@ def extract_constants(c):
     if len(re.findall(r"p_j\[index\]\.x\s*\+=\s*r->dt/2\.\*p_j\[index\]\.vx;", p2)) != 1 + K["vfix"]:
         c.broken.append("proof obligation: reb_integrator_whfast_part2: unexpected number of variational centre-of-mass drifts")
     c.cov["whfast_var_keep_variant"] = "centre-of-mass drift redone after the restore" if K["vfix"] else "as found (drift lost with keep_unsynchronized: C09:whfast-var-keep-com-drift-lost)"
+    # reb_simulation_rescale_var (tools.c): the replay executes a re-implementation and the model carries its flag effect
+    # (`vRescaleF`): threshold 1e100, only when synchronised, m/x/y/z/vx/vy/vz divided, lrescale += log(scale), and for
+    # WHFast with safe_mode = 0 nothing but `recalculate_coordinates_this_timestep = 1`
+    tsrc = open(os.path.join(common.REPO, "src", "tools.c")).read()
+    mrv = re.search(r"void reb_simulation_rescale_var\(.*?\n\}", tsrc, flags=re.S)
+    rv = mrv.group(0) if mrv else ""
+    rv_nc = re.sub(r"//[^\n]*", "", rv)
+    want = [r"if \(scale > 1e100\)\{", r"if \(is_synchronized == 0\)\{.*?return;", r"vc->lrescale \+= log\(scale\);",
+            r"particles\[i\]\.m /= scale;\s*particles\[i\]\.x /= scale;\s*particles\[i\]\.y /= scale;\s*particles\[i\]\.z /= scale;\s*particles\[i\]\.vx /= scale;\s*particles\[i\]\.vy /= scale;\s*particles\[i\]\.vz /= scale;",
+            r"if \(r->integrator == REB_INTEGRATOR_WHFAST && r->ri_whfast\.safe_mode == 0\)\{\s*r->ri_whfast\.recalculate_coordinates_this_timestep = 1;\s*\}",
+            r"r->integrator == REB_INTEGRATOR_WHFAST && r->ri_whfast\.is_synchronized == 0"]
+    miss = [w for w in want if not re.search(w, rv_nc, flags=re.S)]
+    if miss or "p_jh" in rv_nc or len(re.findall(r"/= scale", rv_nc)) != 8:
+        c.broken.append("proof obligation: reb_simulation_rescale_var has not the modelled shape (missing: %s; touches p_jh: %s; %d divisions by scale, expected 8)"
+                        % ([w[:40] for w in miss], "p_jh" in rv_nc, len(re.findall(r"/= scale", rv_nc))))
+    c.cov["rescale_var_shape"] = "as modelled" if not miss else "UNKNOWN"
     # part1 of WHFast / SABA: after `from_inertial; recalculate_coordinates_this_timestep = 0;` does the source set
     # is_synchronized = 1 (repaired, 35adc5c) or leave the flag alone (as found)?  (Config.p1fix / SabaConfig.p1fix)
     for fam_, text_, ri_ in (("W", src, "ri_whfast"), ("S", saba, "ri_saba")):
@@ -640,7 +656,31 @@ class World:
                     else:
                         lib.reb_particles_transform_jacobi_to_inertial_posvel(ppv, pjv, s._particles, ctypes.c_uint(nreal), ctypes.c_uint(nact_r))
             elif name == "vRescale":
-                lib.reb_simulation_rescale_var(r)
+                # reb_simulation_rescale_var re-implemented (tools.c; shape checked by extract_constants): arg = the
+                # model's verdict (1: a coordinate exceeds 1e100 AND the integrator is synchronised -> rescale)
+                nreal_ = s.N - s.N_var
+                for v in range(s.N_var_config):
+                    vc = s.var_config[v]
+                    if vc._lrescale < 0:
+                        continue
+                    scale = 0.0
+                    for i in range(nreal_):
+                        q = s._particles[vc.index + i]
+                        scale = max(abs(q.x), abs(q.y), abs(q.z), abs(q.vx), abs(q.vy), abs(q.vz), scale)
+                    if (scale > 1e100) and arg != "1":
+                        st["rescale_note"] = "coordinate > 1e100, model: not rescaled (unsynchronised)"
+                        continue
+                    if not (scale > 1e100):
+                        if arg == "1":
+                            st["rescale_mismatch"] = "model says a rescaling happens, no variational coordinate exceeds 1e100"
+                        continue
+                    s.var_config[v]._lrescale = vc._lrescale + math.log(scale)
+                    for i in range(nreal_):
+                        q = s._particles[vc.index + i]
+                        q.m = q.m / scale
+                        q.x, q.y, q.z = q.x / scale, q.y / scale, q.z / scale
+                        q.vx, q.vy, q.vz = q.vx / scale, q.vy / scale, q.vz / scale
+                    st["rescaled"] = st.get("rescaled", 0) + 1
             elif name == "sabaInit":
                 if arg == "1":
                     s._gravity = 5            # REB_GRAVITY_JACOBI
@@ -790,15 +830,30 @@ def add_integrates(rng, ops, clock, syncFirst, pure=False, no_exact=False, no_cb
     return toks, pyops
 
 
-def seed_variation(s, var):
+VAR_HUGE = 1e105     # variational coordinates ~1e102: reb_simulation_rescale_var (threshold 1e100) fires at the end of the next step
+
+
+def seed_variation(s, var, scale=1.0):
     """add_variation() creates all-zero variational particles, which every linear map leaves at zero:
-    give them a deterministic non-trivial displacement"""
+    give them a deterministic non-trivial displacement (scale = VAR_HUGE: large enough for a rescaling event)"""
     nreal = s.N - s.N_var
     for i in range(nreal):
         p = s.particles[var.index + i]
         k = var.index + i
-        p.x, p.y, p.z = 1e-3 * math.sin(1.0 + k), 1e-3 * math.cos(2.0 + 3 * k), 1e-4 * math.sin(5.0 * k)
-        p.vx, p.vy, p.vz = 1e-3 * math.cos(0.3 + k), -1e-3 * math.sin(1.7 * k + 0.1), 1e-4 * math.cos(4.0 * k)
+        p.x, p.y, p.z = scale * 1e-3 * math.sin(1.0 + k), scale * 1e-3 * math.cos(2.0 + 3 * k), scale * 1e-4 * math.sin(5.0 * k)
+        p.vx, p.vy, p.vz = scale * 1e-3 * math.cos(0.3 + k), -scale * 1e-3 * math.sin(1.7 * k + 0.1), scale * 1e-4 * math.cos(4.0 * k)
+
+
+def var_big(s):
+    """does a coordinate of a set of variational particles exceed the rescaling threshold?"""
+    nreal = s.N - s.N_var
+    for v in range(s.N_var_config):
+        idx = s.var_config[v].index
+        for i in range(nreal):
+            p = s._particles[idx + i]
+            if max(abs(p.x), abs(p.y), abs(p.z), abs(p.vx), abs(p.vy), abs(p.vz)) > 1e100:
+                return 1
+    return 0
 
 
 def cb_edit(s):
@@ -839,7 +894,7 @@ def family_factors(family):
     elif family == "saba":
         f = {"type": sorted(SABA_ROWS), "mode": ["safe", "unsafe", "keep"], "event": [e for e in EVENTS if e != "g"]}
     elif family == "var":
-        f = {"nvar": [1, 2], "mode": ["safe", "unsafe", "keep"], "event": [e for e in EVENTS if e != "g"]}
+        f = {"nvar": [1, 2], "vscale": ["normal", "huge"], "mode": ["safe", "unsafe", "keep"], "event": [e for e in EVENTS if e != "g"]}
         common = {"roles": ["plain", "zeroactive"], "neg": [0, 1], "feature": [x for x in FEATURES if x != "many"]}
     elif family == "mercurius":
         f = {"mode": ["safe", "unsafe"], "event": [e for e in EVENTS if e != "mk"]}
@@ -1128,16 +1183,19 @@ def replay(c, W, exe, ncases, family):
         if family == "var":
             mode = cs["mode"] if cs else rng.choice(["safe", "unsafe", "keep", "keep"])
             o = dict(coord=0, kernel=0, corrector=0, corrector2=0, safe=int(mode == "safe"), keep=int(mode == "keep"),
-                     nvar=(cs["nvar"] if cs else rng.randint(1, 2)))
+                     nvar=(cs["nvar"] if cs else rng.randint(1, 2)),
+                     huge=int((cs["vscale"] == "huge") if cs else rng.chance(0.3)))
             no_testparticles(system)
             system["dims"].append("variational particles (1st order, non-zero)")
-            lines.append("V %d %d %d %d 1 0 0 %s" % (o["safe"], o["keep"], W.K["vfix"], W.K["p1fixW"], " ".join(toks)))
+            if o["huge"]:
+                system["dims"].append("variational coordinates > 1e100 (rescaling event)")
+            lines.append("V %d %d %d %d %d 1 0 0 %s" % (o["safe"], o["keep"], W.K["vfix"], W.K["p1fixW"], o["huge"], " ".join(toks)))
             base = whfast_setup(o)
 
-            def setup(s, base=base, nv=o["nvar"]):
+            def setup(s, base=base, nv=o["nvar"], sc=(VAR_HUGE if o["huge"] else 1.0)):
                 base(s)
                 for _ in range(nv):
-                    seed_variation(s, s.add_variation())
+                    seed_variation(s, s.add_variation(), sc)
             key = ("var", o["nvar"], o["safe"], o["keep"])
         elif family == "whfast":
             o = whfast_options(rng)
@@ -1244,6 +1302,14 @@ def replay(c, W, exe, ncases, family):
                 q["p_jh"] = [x[:48] + (x[72:80] if i < nact else b"") for i, x in enumerate(q["p_jh"])] \
                     if (q["p_jh"] is not None and st.get("pj_defined")) else None
             aflags = [fl_of(A), A.ri_whfast.recalculate_coordinates_this_timestep, int(A.ri_whfast._N_allocated == A.N)]
+            if family == "var":
+                aflags.append(var_big(A))       # the model's magnitude bit
+                a["lrescale"] = [d2h(A.var_config[v_]._lrescale) for v_ in range(A.N_var_config)]
+                b["lrescale"] = [d2h(B.var_config[v_]._lrescale) for v_ in range(B.N_var_config)]
+                if st.pop("rescale_mismatch", None):
+                    b["lrescale"].append("model/data disagree on the rescaling event")
+                if st.get("rescaled"):
+                    dim("variational rescaling performed (replay)")
             if a != b or aflags != mflags:
                 what = "flags" if aflags != mflags else [k2 for k2 in a if a[k2] != b[k2]][0]
                 c.corr_break("%s schedule replay differs from reb_simulation_%s in %s (op %d of '%s', options %s)"
@@ -1674,8 +1740,9 @@ def integrator_configs(rng, thorough):
     cfgs += [wh(3, 0, 11, 0), wh(0, 0, 0, 1), wh(0, 0, 17, 1), wh(0, 1, 0, 0), wh(0, 2, 0, 0), wh(0, 3, 0, 0),
              wh(0, 1, 5, 0), wh(0, 2, 3, 1), wh(0, 3, 7, 0)]
 
-    def whvar(nvar, megno, corr):
+    def whvar(nvar, megno, corr, huge=False):
         # variational particles / MEGNO: Jacobi coordinates and the default kernel only (whfast_init)
+        # huge: variational coordinates ~1e102, so that reb_simulation_rescale_var fires at the end of the first step
         def mk(mode):
             base = whfast_setup(dict(coord=0, kernel=0, corrector=corr, corrector2=0,
                                      safe=int(mode == "safe"), keep=int(mode == "keep")))
@@ -1684,13 +1751,15 @@ def integrator_configs(rng, thorough):
                 base(s)
                 s.N_active, s.testparticle_type = -1, 0
                 for _ in range(nvar):
-                    seed_variation(s, s.add_variation())
+                    seed_variation(s, s.add_variation(), VAR_HUGE if huge else 1.0)
                 if megno:
                     s.init_megno(seed=12345)
+                if huge:
+                    dim("variational coordinates > 1e100 (rescaling event)")
             return f
-        return ("whfast var=%d megno=%d corr%d" % (nvar, megno, corr), "whfast", mk, True)
+        return ("whfast var=%d megno=%d corr%d%s" % (nvar, megno, corr, " hugevar" if huge else ""), "whfast", mk, True)
 
-    cfgs += [whvar(1, 0, 0), whvar(2, 0, 0), whvar(0, 1, 0), whvar(1, 1, 11)]
+    cfgs += [whvar(1, 0, 0), whvar(2, 0, 0), whvar(0, 1, 0), whvar(1, 1, 11), whvar(1, 0, 0, True), whvar(2, 0, 5, True)]
 
     def saba(t):
         def mk(mode):
@@ -1738,7 +1807,30 @@ def final_state(W, s, which):
 
 
 def coords(W, s):
-    return [(p.x, p.y, p.z, p.vx, p.vy, p.vz) for p in (s.particles[i] for i in range(s.N))]
+    """positions / velocities; variational particles in physical units: times exp(lrescale) of their set
+    (reb_simulation_rescale_var divides them by a scale and adds its logarithm to lrescale)"""
+    out = [(p.x, p.y, p.z, p.vx, p.vy, p.vz) for p in (s.particles[i] for i in range(s.N))]
+    nreal = s.N - s.N_var
+    for v in range(s.N_var_config):
+        vc = s.var_config[v]
+        if vc._lrescale > 0 and vc.testparticle < 0:
+            f = math.exp(min(vc._lrescale, 690.0))       # (a runaway lrescale must not overflow the comparison)
+            for i in range(vc.index, min(vc.index + nreal, s.N)):
+                out[i] = tuple(x * f for x in out[i])
+    return out
+
+
+def grouped_err(ca, cb, nreal):
+    """largest difference relative to the scale of its own group: real particles / variational particles"""
+    err = 0.0
+    for lo, hi in ((0, nreal), (nreal, len(ca))):
+        if lo >= hi:
+            continue
+        sx = max(abs(v) for p in ca[lo:hi] for v in p[:3]) or 1.0
+        sv = max(abs(v) for p in ca[lo:hi] for v in p[3:]) or 1.0
+        e = max(max(abs(a[k] - b[k]) / (sx if k < 3 else sv) for k in range(6)) for a, b in zip(ca[lo:hi], cb[lo:hi]))
+        err = e if not (e <= err) else err
+    return err
 
 
 def interrupt(W, s, kind, tmpdir, allow_sync):
@@ -1919,13 +2011,13 @@ def api_sequences(c, W, cfgs):
                 dim("keep_unsynchronized=1 x integrate call patterns vs safe mode")
             for modename, su in runs:
               for j, ((ca, ta), (cu, tu)) in enumerate(zip(sa, su)):
-                sx = max(abs(v) for p in ca for v in p[:3])
-                sv = max(abs(v) for p in ca for v in p[3:])
-                err = max(max(abs(a[k] - b[k]) / (sx if k < 3 else sv) for k in range(6)) for a, b in zip(ca, cu))
+                nreal_ = len(ca) - (len(system["particles"]) * int(label.split("var=")[1][0]) if "var=" in label else 0) - \
+                    (len(system["particles"]) if "megno=1" in label else 0)
+                err = grouped_err(ca, cu, nreal_)
                 tol = 1e-10
                 if integ == "eos":
                     ch = sh[j][0]
-                    tol = 10 * max(max(abs(a[k] - b[k]) / (sx if k < 3 else sv) for k in range(6)) for a, b in zip(ca, ch)) + 1e-10
+                    tol = 10 * grouped_err(ca, ch, nreal_) + 1e-10
                 kind, ex, unsync_entry = info[j]
                 rev_unsync = (kind == "rev" and unsync_entry)
                 if rev_unsync:
@@ -2520,7 +2612,8 @@ REQUIRED_DIMS = [
     "save / copy / pickle restore mid-run, continued", "archive restore mid-run (getSimulation snapshot/close/exact)",
     "explicit synchronize", "user edits of particles / flags between steps", "close encounters (MERCURIUS)",
     "centre of mass offset and moving", "hyperbolic body", "N > 128 (allocation boundary)",
-    "keep_unsynchronized=1 x integrate call patterns vs safe mode", "keep_unsynchronized=1 x read-only callbacks vs safe mode"]
+    "keep_unsynchronized=1 x integrate call patterns vs safe mode", "keep_unsynchronized=1 x read-only callbacks vs safe mode",
+    "variational coordinates > 1e100 (rescaling event)", "variational rescaling performed (replay)"]
 
 
 # every public attribute of the integrator structs (extracted from rebound/integrators/*.py): where the op alphabet /
